@@ -208,5 +208,20 @@ PROPS["C08"] = {
     "trusted_base": _SYS_TRUSTED + ["dgraph-io/badger v3"],
 }
 
+PROPS["C16"] = {
+    "suites": [{"name": "reconf", "stateful": True, "quick": 400, "thorough": 8000, "thorough_seeds": 3}],
+    "trip_re": "differs_from_fresh.*|surviving_cache_replaced",
+    "rule": "reconf: sequences of 2-6 valid configurations over 3 compress profiles (incl. one named bestCompression), 3 caches, 3 upstreams, "
+            "3 locations, 3 server addresses — each present or absent, options changing (levels, sizes, policy, Accept-Encoding, added "
+            "headers, cache/compress binding, min length set or unset, filter set or unset) — applied to the REAL registries in main.update's "
+            "order; after every update the whole observable state is read through the exported getters (levels, dispatcher identity, "
+            "upstream options, location.Get, server.GetCache/GetLocations/GetCompress) and compared with the model's state AND with a "
+            "freshly started model instance. non-trivial = every update; distinct = distinct histories.",
+    "assumptions": ["each name / address occurs once per configuration",
+                    "listener sockets and graceful close under traffic are outside the model (servers are not started in the suite)",
+                    "retained cached entries legitimately carry headers added by the old location configuration"],
+    "trusted_base": ["sync.Map", "net.Listen / elton GracefulClose"],
+}
+
 NOT_APPLICABLE = {}
 HOOK_COMMITS = ["ca43a57", "6332ff2"]
